@@ -70,6 +70,7 @@ extern void cfg_scan_fp_end(void);
 
 static int cfg_parse_internal(cfg_t *cfg, int level, int force_state, cfg_opt_t *force_opt);
 static void cfg_free_opt_array(cfg_opt_t *opts);
+static int cfg_free_ctx(cfg_t *cfg);
 static int cfg_print_pff_indent(cfg_t *cfg, FILE *fp,
 				cfg_print_filter_func_t fb_pff, int indent);
 
@@ -1127,7 +1128,7 @@ static cfg_value_t *cfg_setopt_value(cfg_t *cfg, cfg_opt_t *opt, const char *val
 
 			if (val->section) {
 				val->section->path = NULL; /* Global search path */
-				cfg_free(val->section);
+				cfg_free_ctx(val->section);
 			}
 			val->section = sec;
 
@@ -2023,7 +2024,7 @@ DLLIMPORT int cfg_free_value(cfg_opt_t *opt)
 				free((void *)opt->values[i]->string);
 			} else if (opt->type == CFGT_SEC) {
 				opt->values[i]->section->path = NULL; /* Global search path */
-				cfg_free(opt->values[i]->section);
+				cfg_free_ctx(opt->values[i]->section);
 			} else if (opt->type == CFGT_PTR && opt->freecb && opt->values[i]->ptr) {
 				(opt->freecb) (opt->values[i]->ptr);
 			}
@@ -2067,10 +2068,10 @@ static int cfg_free_searchpath(cfg_searchpath_t *p)
 	return CFG_SUCCESS;
 }
 
-DLLIMPORT int cfg_free(cfg_t *cfg)
+/* free a context or a section; the scanner is only torn down by cfg_free() */
+static int cfg_free_ctx(cfg_t *cfg)
 {
 	int i;
-	int isroot = 0;
 
 	if (!cfg) {
 		errno = EINVAL;
@@ -2086,20 +2087,33 @@ DLLIMPORT int cfg_free(cfg_t *cfg)
 	cfg_free_opt_array(cfg->opts);
 	cfg_free_searchpath(cfg->path);
 
-	if (cfg->name) {
-		isroot = !strcmp(cfg->name, "root");
+	if (cfg->name)
 		free(cfg->name);
-	}
 	if (cfg->title)
 		free(cfg->title);
 	if (cfg->filename)
 		free(cfg->filename);
 
 	free(cfg);
+
+	return CFG_SUCCESS;
+}
+
+DLLIMPORT int cfg_free(cfg_t *cfg)
+{
+	int isroot, ret;
+
+	if (!cfg) {
+		errno = EINVAL;
+		return CFG_FAIL;
+	}
+
+	isroot = cfg->name && !strcmp(cfg->name, "root");
+	ret = cfg_free_ctx(cfg);
 	if (isroot)
 		cfg_yylex_destroy();
 
-	return CFG_SUCCESS;
+	return ret;
 }
 
 DLLIMPORT int cfg_include(cfg_t *cfg, cfg_opt_t *opt, int argc, const char **argv)
@@ -2442,7 +2456,7 @@ DLLIMPORT int cfg_opt_rmnsec(cfg_opt_t *opt, unsigned int index)
 	--opt->nvalues;
 
 	val->section->path = NULL; /* Global search path */
-	cfg_free(val->section);
+	cfg_free_ctx(val->section);
 	free(val);
 
 	return CFG_SUCCESS;
